@@ -25,15 +25,7 @@ const fnCSStop = "(*neutrino.ChainService).Stop"
 // bareTable: every unconditional channel send / receive of the module, with
 // the reason it cannot block forever. Anything not listed fails.
 var bareTable = []bareOp{
-	{"(*neutrino.ChainService).handleQuery", "send", "field:getConnCountMsg.reply", 1, "rendezvous-reply", "requester receives right after its committed hand-off (C17.X1)"},
-	{"(*neutrino.ChainService).handleQuery", "send", "field:getPeersMsg.reply", 1, "rendezvous-reply", "C17.X1"},
-	{"(*neutrino.ChainService).handleQuery", "send", "field:subConnPeersMsg.reply", 1, "rendezvous-reply", "C17.X1"},
-	{"(*neutrino.ChainService).handleQuery", "send", "field:connectNodeMsg.reply", 5, "rendezvous-reply", "C17.X1"},
-	{"(*neutrino.ChainService).handleQuery", "send", "field:removeNodeMsg.reply", 2, "rendezvous-reply", "C17.X1"},
-	{"(*neutrino.ChainService).handleQuery", "send", "field:getOutboundGroup.reply", 2, "rendezvous-reply", "C17.X1"},
-	{"(*neutrino.ChainService).handleQuery", "send", "field:getAddedNodesMsg.reply", 1, "rendezvous-reply", "C17.X1"},
-	{"(*neutrino.ChainService).handleQuery", "send", "field:disconnectNodeMsg.reply", 2, "rendezvous-reply", "C17.X1"},
-	{"(*neutrino.ChainService).handleQuery", "send", "var:peerChan", 1, "sized-by-count", "channel made with capacity state.Count() and filled inside state.forAllPeers of the same state"},
+	{"(*neutrino.ChainService).handleQuery", "send", "local:chan query.Peer", 1, "sized-by-count", "channel made with capacity state.Count() and filled inside state.forAllPeers of the same state"},
 	{"(*neutrino.ChainService).ConnectedCount", "recv", "local:chan int32", 1, "rendezvous-reply", "receive reachable only after the query was handed to peerHandler, which replies exactly once (C17.X1)"},
 	{"(*neutrino.ChainService).OutboundGroupCount", "recv", "local:chan int", 1, "rendezvous-reply", "C17.X1"},
 	{"(*neutrino.ChainService).AddedNodeInfo", "recv", "local:chan []*neutrino.ServerPeer", 1, "rendezvous-reply", "C17.X1"},
@@ -46,9 +38,9 @@ var bareTable = []bareOp{
 	{"(*query.peerWorkManager).workDispatcher", "send", "field:batchProgress.errChan", 6, "buffered-once", "capacity 1 (Query), one send per batch (C12.X1)"},
 	{"(*query.peerWorkManager).Query", "send", "local:chan error", 1, "buffered-once", "capacity 1, the only send when the batch was not handed over"},
 	{"(*pushtx.Broadcaster).broadcastHandler", "send", "field:broadcastReq.errChan", 2, "buffered-once", "capacity 1 (Broadcast), one reply per request (C15.G1)"},
-	{"(*pushtx.Broadcaster).broadcastHandler", "send", "var:rebroadcastSem", 2, "semaphore", "capacity 1, token discipline (C15.P1)"},
+	{"(*pushtx.Broadcaster).broadcastHandler", "send", "local:chan struct{}", 2, "semaphore", "capacity 1, token discipline (C15.P1)"},
 	{"(*blockntfns.SubscriptionManager).subscriptionHandler", "send", "field:newSubscription.errChan", 1, "buffered-once", "capacity 1 (NewSubscription), one reply per registration (C11.O1)"},
-	{"(*neutrino.Rescan).Start", "send", "var:errChan", 2, "buffered-once", "capacity 1, the two sends are on disjoint paths of one call"},
+	{"(*neutrino.Rescan).Start", "send", "local:chan error", 2, "buffered-once", "capacity 1, the two sends are on disjoint paths of one call"},
 	{"(*chanutils.BatchWriter[T]).AddItem", "send", "field:ConcurrentQueue.chanIn", 1, "exception", "the queue goroutine receives unconditionally while running; the last producer (work manager workers) is stopped before the batch writer (C17.O1)"},
 }
 
@@ -60,7 +52,27 @@ func runC17(c *Ctx) {
 	cs := func(f string) *types.Var { return c.field("neutrino", "ChainService", f) }
 
 	c.rule("C17.B1", "blocking discipline over both modules: every blocking select has an arm that becomes ready at shutdown or after a bounded time (a close-only signal channel, context.Done or a timer); every unconditional send / receive is a tabled site with a reason and a supporting obligation; buffered classes are allocated with constant capacity >= 1", func() {
-		c.blockingDiscipline(bareTable, 60)
+		// reply sends of handleQuery: one row per type-switch case that carries a
+		// channel field (exactly-once is C17.X1), independent of field names
+		table := append([]bareOp{}, bareTable...)
+		hq := c.fn("(*neutrino.ChainService).handleQuery")
+		ir.Instrs(hq, func(in ssa.Instruction) {
+			ta, ok := in.(*ssa.TypeAssert)
+			if !ok || !ta.CommaOk {
+				return
+			}
+			st, ok := ta.AssertedType.Underlying().(*types.Struct)
+			named, _ := ta.AssertedType.(*types.Named)
+			if !ok || named == nil {
+				return
+			}
+			for i := 0; i < st.NumFields(); i++ {
+				if _, isChan := st.Field(i).Type().Underlying().(*types.Chan); isChan {
+					table = append(table, bareOp{c.nm(hq), "send", "field:" + named.Obj().Name() + "." + st.Field(i).Name(), 1 << 20, "rendezvous-reply", "reply of a query case; exactly one per path (C17.X1)"})
+				}
+			}
+		})
+		c.blockingDiscipline(table, 60)
 		cc := c.onCache()
 		cc.blockingDiscipline(nil, 0)
 		// capacity of the buffered classes
@@ -116,21 +128,7 @@ func runC17(c *Ctx) {
 						}
 						want := strings.TrimPrefix(t.key, "local:")
 						got := types.TypeString(mk.Type(), func(p *types.Package) string { return p.Name() })
-						if strings.HasPrefix(t.key, "var:") || got == want {
-							if strings.HasPrefix(t.key, "var:") {
-								// the cell named like the variable
-								named := false
-								for _, r := range ir.Refs(mk) {
-									if st, ok := r.(*ssa.Store); ok {
-										if al, ok := st.Addr.(*ssa.Alloc); ok && "var:"+al.Comment == t.key {
-											named = true
-										}
-									}
-								}
-								if !named {
-									return
-								}
-							}
+						if got == want {
 							n++
 							sites = append(sites, c.at(mk))
 							if k, isC := ir.ConstInt(mk.Size); !isC || k < 1 {
@@ -158,7 +156,7 @@ func runC17(c *Ctx) {
 			}
 			var reply *types.Var
 			for i := 0; i < st.NumFields(); i++ {
-				if st.Field(i).Name() == "reply" {
+				if _, isChan := st.Field(i).Type().Underlying().(*types.Chan); isChan {
 					reply = st.Field(i)
 				}
 			}
@@ -167,7 +165,7 @@ func runC17(c *Ctx) {
 				return
 			}
 			n++
-			key := "field:" + named.Obj().Name() + ".reply"
+			key := "field:" + named.Obj().Name() + "." + reply.Name()
 			send := func(x ssa.Instruction) bool {
 				s, ok := x.(*ssa.Send)
 				return ok && c.chanKey(s.Chan) == key
